@@ -737,35 +737,6 @@ Proof.
     rewrite <- (find_kid_equiv x y kids He), Ef. apply IH.
 Qed.
 
-(* an update that only touches child nm of the storage at parent leaves every
-   chain that is not a prefix of parent ++ [nm] alone *)
-Lemma update_kid_elsewhere :
-  forall t parent nm m kids m' kids' f,
-    get t parent = Some (Dir m kids) ->
-    f (Dir m kids) = Dir m' kids' ->
-    (forall o, cmp_names o nm <> Eq -> find_kid o kids' = find_kid o kids) ->
-    (forall o s, cmp_names o nm = Eq -> s <> [] ->
-                 get (Dir m' kids') (o :: s) = get (Dir m kids) (o :: s)) ->
-    forall other, ~ chain_prefix other (parent ++ [nm]) ->
-                  get (update t parent f) other = get t other.
-Proof.
-  intros t parent nm m kids m' kids' f Hg Hf Hne Heq other Hnp.
-  destruct (chain_trichotomy parent other) as [Hd|[Hp|[p' [s [-> [Hs He]]]]]].
-  - apply get_update_other, Hd.
-  - exfalso. apply Hnp, chain_prefix_app, Hp.
-  - rewrite (get_update_ext parent t _ f p' s Hg He), Hf.
-    rewrite get_app, <- (get_equiv parent p' He), Hg.
-    destruct s as [|o s']; [congruence|].
-    destruct (cmp_names o nm) eqn:E.
-    + destruct s' as [|o' s''].
-      * exfalso. apply Hnp. exists []. rewrite app_nil_r.
-        apply chain_equiv_app; [apply chain_equiv_sym, He|].
-        constructor; [exact E | constructor].
-      * apply Heq; [exact E | discriminate].
-    + simpl. rewrite Hne by (rewrite E; discriminate). reflexivity.
-    + simpl. rewrite Hne by (rewrite E; discriminate). reflexivity.
-Qed.
-
 (* ---- last component ---- *)
 
 Lemma lastN_app1 : forall A (l : list A) x, lastN (l ++ [x]) = Some x.
@@ -787,3 +758,642 @@ Proof.
   intros A l H. unfold lastN in H. destruct (rev l) eqn:E; [|discriminate].
   rewrite <- (rev_involutive l), E. reflexivity.
 Qed.
+
+(* ================================================================== *)
+(* The operations                                                       *)
+(* ================================================================== *)
+
+Ltac break_match :=
+  match goal with
+  | |- context [match ?x with _ => _ end] => destruct x eqn:?
+  end.
+
+(* the absence of names = parent ++ [nm] is the absence of nm among the children *)
+Lemma get_last_none :
+  forall t names nm m kids,
+    get t names = None -> lastN names = Some nm ->
+    get t (parent_of names) = Some (Dir m kids) -> find_kid nm kids = None.
+Proof.
+  intros t names nm m kids Hg Hl Hp. rewrite (lastN_some _ _ _ Hl), get_app in Hg.
+  unfold parent_of in Hp. rewrite Hp in Hg. simpl in Hg.
+  destruct (find_kid nm kids) as [[k c]|]; [discriminate | reflexivity].
+Qed.
+
+Lemma get_last_some :
+  forall t names nm n,
+    get t names = Some n -> lastN names = Some nm ->
+    exists m kids k, get t (parent_of names) = Some (Dir m kids) /\ find_kid nm kids = Some (k, n).
+Proof.
+  intros t names nm n Hg Hl. rewrite (lastN_some _ _ _ Hl), get_app in Hg.
+  unfold parent_of. destruct (get t (pop_last names)) as [[st bs|m kids]|]; try discriminate.
+  simpl in Hg. destruct (find_kid nm kids) as [[k c]|] eqn:Ef; [|discriminate].
+  injection Hg as ->. exists m, kids, k. split; [reflexivity | exact Ef].
+Qed.
+
+Lemma wf_insert_last :
+  forall t names nm c f,
+    (forall m kids, f (Dir m kids) = Dir m (insert_kid nm c kids)) ->
+    (forall st bs, f (Leaf st bs) = Leaf st bs) ->
+    wf_node t -> wf_node c -> get t names = None -> lastN names = Some nm ->
+    wf_node (update t (parent_of names) f).
+Proof.
+  intros t names nm c f HfD HfL Hwf Hc Hg Hl. apply wf_update; [exact Hwf|].
+  intros n Hn Hwn. destruct n as [st bs|m kids]; [rewrite HfL; exact Hwn|].
+  rewrite HfD. inversion Hwn as [|m' kids' Hs Hall]; subst. constructor.
+  - apply insert_sorted; [exact Hs|]. eapply get_last_none; eassumption.
+  - apply Forall_insert_kid; [exact Hc | exact Hall].
+Qed.
+
+Lemma wf_remove_at : forall t names, wf_node t -> wf_node (remove_at t names).
+Proof.
+  intros t names Hwf. unfold remove_at. destruct (lastN names) as [nm|]; [|exact Hwf].
+  apply wf_update; [exact Hwf|]. intros n _ Hwn.
+  destruct n as [st bs|m kids]; [exact Hwn|].
+  inversion Hwn as [|m' kids' Hs Hall]; subst. constructor.
+  - apply remove_sorted, Hs.
+  - apply Forall_remove_kid, Hall.
+Qed.
+
+Lemma wf_update_simple :
+  forall t names f, (forall n, wf_node n -> wf_node (f n)) -> wf_node t ->
+                    wf_node (update t names f).
+Proof. intros t names f Hf Hwf. apply wf_update; [exact Hwf|]. intros n _. apply Hf. Qed.
+
+Lemma wf_create_storage_at :
+  forall t names now, wf_node t -> wf_node (fst (create_storage_at t names now)).
+Proof.
+  intros t names now Hwf. unfold create_storage_at.
+  destruct (get t names) eqn:Eg; [exact Hwf|].
+  destruct (lastN names) as [nm|] eqn:El; [|exact Hwf].
+  destruct (validate_name nm); try exact Hwf.
+  destruct (get t (parent_of names)) as [[st bs|m kids]|]; try exact Hwf.
+  simpl. eapply wf_insert_last;
+    [reflexivity | reflexivity | exact Hwf | apply wf_new_dir | eassumption | eassumption].
+Qed.
+
+Lemma wf_create_all :
+  forall pres t now, wf_node t -> wf_node (fst (create_all t pres now)).
+Proof.
+  induction pres as [|pre rest IH]; intros t now Hwf; simpl; [exact Hwf|].
+  assert (Hstep : wf_node (fst (match create_storage_at t pre now with
+                                | (t', Ok _) => create_all t' rest now
+                                | other => other end))).
+  { pose proof (wf_create_storage_at t pre now Hwf) as Hc.
+    destruct (create_storage_at t pre now) as [t' r]. simpl in Hc.
+    destruct r; try exact Hc. apply IH, Hc. }
+  destruct (get t pre) as [[st bs|m kids]|]; try exact Hstep. apply IH, Hwf.
+Qed.
+
+(* sortedness of every storage is an invariant of every operation *)
+Theorem wf_spec_step :
+  forall t now o, wf_node t -> wf_node (fst (spec_step t now o)).
+Proof.
+  intros t now o Hwf.
+  destruct o; unfold spec_step, with_names; cbv beta iota; try exact Hwf;
+    (destruct (name_chain_from_path p) as [names| | |]; [|exact Hwf..]).
+  - (* SCreateStorage *) apply wf_create_storage_at, Hwf.
+  - (* SCreateStorageAll *)
+    destruct (all_valid names); [apply wf_create_all, Hwf | exact Hwf].
+  - (* SRemoveStorage *)
+    destruct (get t names) as [[st bs|m kids]|]; try exact Hwf.
+    destruct names; [exact Hwf|]. destruct kids; [|exact Hwf].
+    apply wf_remove_at, Hwf.
+  - (* SRemoveStorageAll *)
+    destruct (get t names) as [n|]; [|exact Hwf].
+    destruct names; [|apply wf_remove_at, Hwf].
+    simpl. destruct t as [st bs|m kids]; [exact Hwf|]. constructor; [exact I|constructor].
+  - (* SCreateStream *)
+    destruct (get t names) as [[st bs|m kids]|] eqn:Eg; try exact Hwf.
+    + destruct overwrite; [|exact Hwf]. simpl.
+      apply wf_update_simple; [|exact Hwf]. intros; constructor.
+    + destruct (lastN names) as [nm|] eqn:El; [|exact Hwf].
+      destruct (validate_name nm); try exact Hwf.
+      destruct (get t (parent_of names)) as [[st bs|m kids]|]; try exact Hwf.
+      simpl. eapply wf_insert_last;
+        [reflexivity | reflexivity | exact Hwf | constructor | eassumption | eassumption].
+  - (* SAppend *)
+    destruct (get t names) as [[st bs0|m kids]|]; try exact Hwf. simpl.
+    apply wf_update_simple; [|exact Hwf]. intros; constructor.
+  - (* SOpenStream *)
+    destruct (get t names) as [[st bs0|m kids]|]; exact Hwf.
+  - (* SRemoveStream *)
+    destruct (get t names) as [[st bs0|m kids]|]; try exact Hwf. apply wf_remove_at, Hwf.
+  - (* SSetClsid *)
+    destruct (get t names) as [[st bs0|m kids]|]; try exact Hwf. simpl.
+    apply wf_update_simple; [|exact Hwf].
+    intros n Hn. destruct Hn; constructor; assumption.
+  - (* SSetState *)
+    destruct (get t names); [|exact Hwf]. simpl.
+    apply wf_update_simple; [|exact Hwf].
+    intros n0 Hn. destruct Hn; constructor; assumption.
+  - (* SSetCreated *)
+    destruct (get t names); [|exact Hwf]. simpl.
+    apply wf_update_simple; [|exact Hwf].
+    intros n0 Hn. destruct Hn; constructor; assumption.
+  - (* SSetModified *)
+    destruct (get t names); [|exact Hwf]. simpl.
+    apply wf_update_simple; [|exact Hwf].
+    intros n0 Hn. destruct Hn; constructor; assumption.
+  - (* SEntry *) destruct (get t names); exact Hwf.
+  - (* SReadStorage *) destruct (get t names) as [[st bs0|m kids]|]; exact Hwf.
+  - (* SWalkStorage *) destruct (get t names); [|exact Hwf]. destruct names; exact Hwf.
+  - (* SCat *) destruct (get t names) as [[st bs0|m kids]|]; exact Hwf.
+Qed.
+
+(* ---- a refused operation changes nothing ---- *)
+
+Definition ins_fun (nm : name) (c : node) : node -> node :=
+  fun p => match p with Dir m kids => Dir m (insert_kid nm c kids) | x => x end.
+
+Definition rem_fun (nm : name) : node -> node :=
+  fun p => match p with Dir m kids => Dir m (remove_kid nm kids) | x => x end.
+
+(* creating the absent child x of the existing storage acc succeeds *)
+Lemma create_storage_at_fresh :
+  forall t acc x u m kids now,
+    validate_name x = Ok u -> get t acc = Some (Dir m kids) -> get t (acc ++ [x]) = None ->
+    create_storage_at t (acc ++ [x]) now = (update t acc (ins_fun x (new_dir now)), Ok SVUnit) /\
+    get (update t acc (ins_fun x (new_dir now))) (acc ++ [x]) = Some (new_dir now).
+Proof.
+  intros t acc x u m kids now Hv Hacc Hnone. split.
+  - unfold create_storage_at, parent_of.
+    rewrite Hnone, lastN_app1, Hv, pop_last_app1, Hacc. reflexivity.
+  - rewrite (get_update_ext acc t _ _ acc [x] Hacc (chain_equiv_refl acc)).
+    rewrite get_app, Hacc in Hnone. simpl in Hnone. simpl.
+    rewrite find_insert_gen, cmp_names_refl; [reflexivity|].
+    destruct (find_kid x kids) as [[k c]|]; [discriminate | reflexivity].
+Qed.
+
+(* below a freshly created (empty) storage every further creation succeeds *)
+Lemma create_all_fresh :
+  forall l t acc m now,
+    all_valid l = true -> get t acc = Some (Dir m []) ->
+    exists t', create_all t (prefixes l acc) now = (t', Ok SVUnit).
+Proof.
+  induction l as [|x r IH]; intros t acc m now Hv Hacc; simpl.
+  - exists t. reflexivity.
+  - simpl in Hv. destruct (validate_name x) as [u| | |] eqn:Ev; try discriminate.
+    assert (Hnone : get t (acc ++ [x]) = None) by (rewrite get_app, Hacc; reflexivity).
+    destruct (create_storage_at_fresh t acc x u m [] now Ev Hacc Hnone) as [Hc Hg].
+    rewrite Hnone, Hc. eapply IH; [exact Hv | exact Hg].
+Qed.
+
+(* a refusal can only come before the first creation *)
+Lemma create_all_err :
+  forall l t acc m kids now t' e,
+    all_valid l = true -> get t acc = Some (Dir m kids) ->
+    create_all t (prefixes l acc) now = (t', Err e) -> t' = t.
+Proof.
+  induction l as [|x r IH]; intros t acc m kids now t' e Hv Hacc H; simpl in H.
+  - discriminate.
+  - simpl in Hv. destruct (validate_name x) as [u| | |] eqn:Ev; try discriminate.
+    destruct (get t (acc ++ [x])) as [[st bs|m1 k1]|] eqn:Eg.
+    + unfold create_storage_at in H. rewrite Eg in H. injection H as <- _. reflexivity.
+    + eapply IH; eassumption.
+    + destruct (create_storage_at_fresh t acc x u m kids now Ev Hacc Eg) as [Hc Hg].
+      rewrite Hc in H.
+      destruct (create_all_fresh r _ (acc ++ [x]) _ now Hv Hg) as [t2 H2].
+      rewrite H2 in H. discriminate.
+Qed.
+
+Lemma create_all_refused :
+  forall names t now t' e,
+    all_valid names = true -> create_all t (prefixes names []) now = (t', Err e) -> t' = t.
+Proof.
+  intros names t now t' e Hv H. destruct t as [st bs|m kids].
+  - destruct names as [|x r]; simpl in H; [discriminate|].
+    simpl in Hv. destruct (validate_name x) as [u| | |] eqn:Ev; try discriminate.
+    unfold create_storage_at in H. simpl in H. unfold lastN in H. simpl in H.
+    rewrite Ev in H. simpl in H. injection H as <- _. reflexivity.
+  - eapply (create_all_err names (Dir m kids) [] m kids); [exact Hv | reflexivity | exact H].
+Qed.
+
+Theorem spec_refused_no_effect :
+  forall t now o k, snd (spec_step t now o) = Err k -> fst (spec_step t now o) = t.
+Proof.
+  intros t now o k.
+  destruct o; unfold spec_step, with_names; cbv beta iota; try reflexivity;
+    (destruct (name_chain_from_path p) as [names| | |]; [|reflexivity..]).
+  - (* SCreateStorage *) unfold create_storage_at.
+    repeat (break_match; try reflexivity). simpl. discriminate.
+  - (* SCreateStorageAll *)
+    destruct (all_valid names) eqn:Ev; [|reflexivity].
+    destruct (create_all t (prefixes names []) now) as [t' r] eqn:Ec. simpl.
+    intros ->. eapply create_all_refused; eassumption.
+  - repeat (break_match; try reflexivity); simpl; discriminate.
+  - repeat (break_match; try reflexivity); simpl; discriminate.
+  - repeat (break_match; try reflexivity); simpl; discriminate.
+  - repeat (break_match; try reflexivity); simpl; discriminate.
+  - repeat (break_match; try reflexivity); simpl; discriminate.
+  - repeat (break_match; try reflexivity); simpl; discriminate.
+  - repeat (break_match; try reflexivity); simpl; discriminate.
+  - repeat (break_match; try reflexivity); simpl; discriminate.
+  - repeat (break_match; try reflexivity); simpl; discriminate.
+  - repeat (break_match; try reflexivity); simpl; discriminate.
+  - repeat (break_match; try reflexivity); simpl; discriminate.
+  - repeat (break_match; try reflexivity); simpl; discriminate.
+  - repeat (break_match; try reflexivity); simpl; discriminate.
+  - repeat (break_match; try reflexivity); simpl; discriminate.
+Qed.
+
+(* ---- lookups through paths are case-insensitive ---- *)
+
+Definition entry_eq_mod_path (e e' : sentry) : Prop :=
+  se_name e = se_name e' /\ se_type e = se_type e' /\ se_clsid e = se_clsid e' /\
+  se_state e = se_state e' /\ se_ctime e = se_ctime e' /\ se_mtime e = se_mtime e' /\
+  se_len e = se_len e'.
+
+Lemma entry_for_mod_path :
+  forall r nm path path' n, entry_eq_mod_path (entry_for r nm path n) (entry_for r nm path' n).
+Proof. intros r nm path path' [st bs|m kids]; unfold entry_eq_mod_path; simpl; repeat split. Qed.
+
+Theorem spec_case_insensitive :
+  forall t now p p' names names',
+    name_chain_from_path p = Ok names -> name_chain_from_path p' = Ok names' ->
+    chain_equiv names names' ->
+    spec_step t now (SExists p) = spec_step t now (SExists p') /\
+    spec_step t now (SIsStream p) = spec_step t now (SIsStream p') /\
+    spec_step t now (SIsStorage p) = spec_step t now (SIsStorage p') /\
+    spec_step t now (SCat p) = spec_step t now (SCat p') /\
+    spec_step t now (SOpenStream p) = spec_step t now (SOpenStream p') /\
+    match spec_step t now (SEntry p), spec_step t now (SEntry p') with
+    | (t1, Ok (SVEntry e)), (t2, Ok (SVEntry e')) => t1 = t /\ t2 = t /\ entry_eq_mod_path e e'
+    | (t1, Err k), (t2, Err k') => t1 = t /\ t2 = t /\ k = k'
+    | _, _ => False
+    end.
+Proof.
+  intros t now p p' names names' Hp Hp' He.
+  assert (Hroot : match names with [] => true | _ :: _ => false end =
+                  match names' with [] => true | _ :: _ => false end)
+    by (destruct He; reflexivity).
+  unfold spec_step, with_names. rewrite Hp, Hp', (get_equiv names names' He t).
+  repeat (split; [reflexivity|]).
+  rewrite Hroot, (stored_name_equiv names names' He).
+  destruct (get t names') as [n|].
+  - repeat (split; [reflexivity|]). apply entry_for_mod_path.
+  - repeat split.
+Qed.
+
+(* in particular the upper-cased spelling of a chain reads the same node *)
+Corollary get_upper : forall t names, get t (map (map upper) names) = get t names.
+Proof. intros. apply get_equiv, chain_equiv_upper. Qed.
+
+(* ---- creation and removal: the object appears / is gone, the rest is untouched ---- *)
+
+Lemma update_kid_core :
+  forall t parent nm m kids m' kids' f,
+    get t parent = Some (Dir m kids) ->
+    f (Dir m kids) = Dir m' kids' ->
+    (forall o, cmp_names o nm <> Eq -> find_kid o kids' = find_kid o kids) ->
+    forall other, ~ chain_prefix other (parent ++ [nm]) ->
+      get (update t parent f) other = get t other \/
+      exists p' o x s, other = p' ++ o :: x :: s /\ chain_equiv parent p' /\ cmp_names o nm = Eq /\
+                     get (update t parent f) other = get (Dir m' kids') (o :: x :: s) /\
+                     get t other = get (Dir m kids) (o :: x :: s).
+Proof.
+  intros t parent nm m kids m' kids' f Hg Hf Hne other Hnp.
+  destruct (chain_trichotomy parent other) as [Hd|[Hp|[p' [s [-> [Hs He]]]]]].
+  - left. apply get_update_other, Hd.
+  - exfalso. apply Hnp, chain_prefix_app, Hp.
+  - assert (H1 : get (update t parent f) (p' ++ s) = get (Dir m' kids') s).
+    { rewrite (get_update_ext parent t _ f p' s Hg He), Hf. reflexivity. }
+    assert (H2 : get t (p' ++ s) = get (Dir m kids) s).
+    { rewrite get_app, <- (get_equiv parent p' He), Hg. reflexivity. }
+    destruct s as [|o s']; [congruence|].
+    destruct (cmp_names o nm) eqn:E.
+    + destruct s' as [|x s''].
+      * exfalso. apply Hnp. exists []. rewrite app_nil_r.
+        apply chain_equiv_app; [apply chain_equiv_sym, He|].
+        constructor; [exact E | constructor].
+      * right. exists p', o, x, s''. repeat split; assumption.
+    + left. rewrite H1, H2. simpl. rewrite Hne by (rewrite E; discriminate). reflexivity.
+    + left. rewrite H1, H2. simpl. rewrite Hne by (rewrite E; discriminate). reflexivity.
+Qed.
+
+Lemma find_insert_other :
+  forall nm c kids o,
+    find_kid nm kids = None -> cmp_names o nm <> Eq ->
+    find_kid o (insert_kid nm c kids) = find_kid o kids.
+Proof.
+  intros nm c kids o Hn Hne. rewrite find_insert_gen by exact Hn.
+  destruct (cmp_names o nm); [contradiction Hne; reflexivity | reflexivity..].
+Qed.
+
+Lemma find_remove_other :
+  forall nm kids o,
+    sorted_kids kids -> cmp_names o nm <> Eq -> find_kid o (remove_kid nm kids) = find_kid o kids.
+Proof.
+  intros nm kids o Hs Hne. rewrite find_remove by exact Hs.
+  destruct (cmp_names o nm); [contradiction Hne; reflexivity | reflexivity..].
+Qed.
+
+(* inserting child nm (a node without descendants) below parent *)
+Lemma insert_at_found :
+  forall t parent nm c m kids,
+    get t parent = Some (Dir m kids) -> find_kid nm kids = None ->
+    (forall x s, get c (x :: s) = None) ->
+    get (update t parent (ins_fun nm c)) (parent ++ [nm]) = Some c /\
+    (forall other, ~ chain_prefix other (parent ++ [nm]) ->
+                   get (update t parent (ins_fun nm c)) other = get t other).
+Proof.
+  intros t parent nm c m kids Hg Hn Hc. split.
+  - rewrite (get_update_ext parent t _ _ parent [nm] Hg (chain_equiv_refl parent)).
+    simpl. rewrite find_insert_gen, cmp_names_refl by exact Hn. reflexivity.
+  - intros other Hnp.
+    destruct (update_kid_core t parent nm m kids m (insert_kid nm c kids) (ins_fun nm c)
+                Hg eq_refl (fun o => find_insert_other nm c kids o Hn) other Hnp)
+      as [H|[p' [o [x [s [-> [He [Eo [H1 H2]]]]]]]]]; [exact H|].
+    rewrite H1, H2. simpl.
+    rewrite find_insert_gen, Eo by exact Hn. rewrite (find_kid_equiv o nm kids Eo), Hn.
+    apply Hc.
+Qed.
+
+(* removing child nm (a node without descendants) of parent *)
+Lemma remove_at_gone :
+  forall t parent nm k c m kids,
+    get t parent = Some (Dir m kids) -> sorted_kids kids -> find_kid nm kids = Some (k, c) ->
+    (forall x s, get c (x :: s) = None) ->
+    get (update t parent (rem_fun nm)) (parent ++ [nm]) = None /\
+    (forall other, ~ chain_prefix other (parent ++ [nm]) ->
+                   get (update t parent (rem_fun nm)) other = get t other).
+Proof.
+  intros t parent nm k c m kids Hg Hs Hf Hc. split.
+  - rewrite (get_update_ext parent t _ _ parent [nm] Hg (chain_equiv_refl parent)).
+    simpl. rewrite find_remove, cmp_names_refl by exact Hs. reflexivity.
+  - intros other Hnp.
+    destruct (update_kid_core t parent nm m kids m (remove_kid nm kids) (rem_fun nm)
+                Hg eq_refl (fun o => find_remove_other nm kids o Hs) other Hnp)
+      as [H|[p' [o [x [s [-> [He [Eo [H1 H2]]]]]]]]]; [exact H|].
+    rewrite H1, H2. simpl.
+    rewrite find_remove, Eo by exact Hs. rewrite (find_kid_equiv o nm kids Eo), Hf.
+    symmetry. apply Hc.
+Qed.
+
+(* removing a whole subtree: chains unrelated to it are untouched, chains into it vanish *)
+Lemma remove_at_subtree :
+  forall t parent nm k c m kids,
+    get t parent = Some (Dir m kids) -> sorted_kids kids -> find_kid nm kids = Some (k, c) ->
+    (forall other, chain_prefix (parent ++ [nm]) other ->
+                   get (update t parent (rem_fun nm)) other = None) /\
+    (forall other, ~ chain_prefix other (parent ++ [nm]) -> ~ chain_prefix (parent ++ [nm]) other ->
+                   get (update t parent (rem_fun nm)) other = get t other).
+Proof.
+  intros t parent nm k c m kids Hg Hs Hf. split.
+  - intros other [s He].
+    rewrite <- (get_equiv _ _ He), <- app_assoc.
+    rewrite (get_update_ext parent t _ _ parent _ Hg (chain_equiv_refl parent)).
+    simpl. rewrite find_remove, cmp_names_refl by exact Hs. reflexivity.
+  - intros other Hnp Hnq.
+    destruct (update_kid_core t parent nm m kids m (remove_kid nm kids) (rem_fun nm)
+                Hg eq_refl (fun o => find_remove_other nm kids o Hs) other Hnp)
+      as [H|[p' [o [x [s [-> [He [Eo [H1 H2]]]]]]]]]; [exact H|].
+    exfalso. apply Hnq. exists (x :: s).
+    replace (p' ++ o :: x :: s) with ((p' ++ [o]) ++ x :: s) by (rewrite <- app_assoc; reflexivity).
+    apply chain_equiv_app; [|apply chain_equiv_refl].
+    apply chain_equiv_app; [exact He|]. constructor; [apply cmp_eq_sym, Eo | constructor].
+Qed.
+
+Theorem create_then_found :
+  forall t now p t' names,
+    wf_node t ->
+    spec_step t now (SCreateStorage p) = (t', Ok SVUnit) ->
+    name_chain_from_path p = Ok names ->
+    get t names = None /\
+    get t' names = Some (new_dir now) /\
+    (exists m, get t' names = Some (Dir m [])) /\
+    (forall other, ~ chain_prefix other names -> get t' other = get t other).
+Proof.
+  intros t now p t' names _ H Hp.
+  unfold spec_step, with_names in H. rewrite Hp in H. unfold create_storage_at in H.
+  destruct (get t names) eqn:Eg; [discriminate|].
+  destruct (lastN names) as [nm|] eqn:El; [|discriminate].
+  destruct (validate_name nm); try discriminate.
+  destruct (get t (parent_of names)) as [[st bs|m kids]|] eqn:Epar; try discriminate.
+  injection H as <-.
+  pose proof (get_last_none t names nm m kids Eg El Epar) as Hn.
+  destruct (insert_at_found t (parent_of names) nm (new_dir now) m kids Epar Hn
+              (fun x s => eq_refl)) as [H1 H2].
+  unfold parent_of in H1, H2. rewrite <- (lastN_some _ _ _ El) in H1, H2.
+  split; [reflexivity|]. split; [exact H1|]. split; [eexists; exact H1 | exact H2].
+Qed.
+
+Theorem create_stream_then_found :
+  forall t now p ow t' names,
+    wf_node t ->
+    spec_step t now (SCreateStream p ow) = (t', Ok SVUnit) ->
+    name_chain_from_path p = Ok names ->
+    (exists st, get t' names = Some (Leaf st [])) /\
+    (forall other, ~ chain_prefix other names -> get t' other = get t other).
+Proof.
+  intros t now p ow t' names _ H Hp.
+  unfold spec_step, with_names in H. rewrite Hp in H.
+  destruct (get t names) as [[st bs|m kids]|] eqn:Eg; try discriminate.
+  - (* truncation of an existing stream *)
+    destruct ow; [|discriminate]. injection H as <-. split.
+    + exists st. apply (get_update_same t names (fun _ => Leaf st []) _ Eg).
+    + intros other Hnp.
+      destruct (chain_trichotomy names other) as [Hd|[Hq|[p' [s [-> [Hs He]]]]]].
+      * apply get_update_other, Hd.
+      * contradiction.
+      * rewrite (get_update_ext names t _ _ p' s Eg He).
+        rewrite get_app, <- (get_equiv names p' He), Eg.
+        destruct s; [congruence | reflexivity].
+  - destruct (lastN names) as [nm|] eqn:El; [|discriminate].
+    destruct (validate_name nm); try discriminate.
+    destruct (get t (parent_of names)) as [[st bs|m kids]|] eqn:Epar; try discriminate.
+    injection H as <-.
+    pose proof (get_last_none t names nm m kids Eg El Epar) as Hn.
+    destruct (insert_at_found t (parent_of names) nm (Leaf 0 []) m kids Epar Hn
+                (fun x s => eq_refl)) as [H1 H2].
+    unfold parent_of in H1, H2. rewrite <- (lastN_some _ _ _ El) in H1, H2.
+    split; [exists 0; exact H1 | exact H2].
+Qed.
+
+Theorem remove_stream_then_gone :
+  forall t now p t' names,
+    wf_node t -> is_leaf t = false ->
+    spec_step t now (SRemoveStream p) = (t', Ok SVUnit) ->
+    name_chain_from_path p = Ok names ->
+    get t' names = None /\
+    (forall other, ~ chain_prefix other names -> get t' other = get t other).
+Proof.
+  intros t now p t' names Hwf Hroot H Hp.
+  unfold spec_step, with_names in H. rewrite Hp in H.
+  destruct (get t names) as [[st bs|m kids]|] eqn:Eg; try discriminate.
+  injection H as <-. unfold remove_at.
+  destruct (lastN names) as [nm|] eqn:El.
+  - destruct (get_last_some t names nm _ Eg El) as [m [kids [k [Epar Ef]]]].
+    assert (Hs : sorted_kids kids).
+    { pose proof (wf_get _ _ _ Hwf Epar) as Hw. inversion Hw; assumption. }
+    destruct (remove_at_gone t (parent_of names) nm k _ m kids Epar Hs Ef (fun x s => eq_refl))
+      as [H1 H2].
+    unfold parent_of in H1, H2. rewrite <- (lastN_some _ _ _ El) in H1, H2.
+    split; assumption.
+  - apply lastN_none in El. subst names. simpl in Eg. injection Eg as ->. discriminate.
+Qed.
+
+Theorem remove_storage_then_gone :
+  forall t now p t' names,
+    wf_node t ->
+    spec_step t now (SRemoveStorage p) = (t', Ok SVUnit) ->
+    name_chain_from_path p = Ok names ->
+    get t' names = None /\
+    (forall other, ~ chain_prefix other names -> get t' other = get t other).
+Proof.
+  intros t now p t' names Hwf H Hp.
+  unfold spec_step, with_names in H. rewrite Hp in H.
+  destruct (get t names) as [[st bs|m0 kids0]|] eqn:Eg; try discriminate.
+  destruct names as [|n0 r0] eqn:En; [discriminate|]. rewrite <- En in *.
+  destruct kids0; [|discriminate].
+  injection H as <-. unfold remove_at.
+  destruct (lastN names) as [nm|] eqn:El.
+  - destruct (get_last_some t names nm _ Eg El) as [m [kids [k [Epar Ef]]]].
+    assert (Hs : sorted_kids kids).
+    { pose proof (wf_get _ _ _ Hwf Epar) as Hw. inversion Hw; assumption. }
+    destruct (remove_at_gone t (parent_of names) nm k _ m kids Epar Hs Ef (fun x s => eq_refl))
+      as [H1 H2].
+    unfold parent_of in H1, H2. rewrite <- (lastN_some _ _ _ El) in H1, H2.
+    split; assumption.
+  - apply lastN_none in El. congruence.
+Qed.
+
+(* recursive removal below the root: the subtree vanishes, unrelated chains stay *)
+Theorem remove_storage_all_then_gone :
+  forall t now p t' names,
+    wf_node t -> names <> [] ->
+    spec_step t now (SRemoveStorageAll p) = (t', Ok SVUnit) ->
+    name_chain_from_path p = Ok names ->
+    (forall other, chain_prefix names other -> get t' other = None) /\
+    (forall other, ~ chain_prefix other names -> ~ chain_prefix names other ->
+                   get t' other = get t other).
+Proof.
+  intros t now p t' names Hwf Hne H Hp.
+  unfold spec_step, with_names in H. rewrite Hp in H.
+  destruct (get t names) as [n|] eqn:Eg; try discriminate.
+  destruct names as [|n0 r0] eqn:En; [congruence|]. rewrite <- En in *.
+  injection H as <-. unfold remove_at.
+  destruct (lastN names) as [nm|] eqn:El.
+  - destruct (get_last_some t names nm _ Eg El) as [m [kids [k [Epar Ef]]]].
+    assert (Hs : sorted_kids kids).
+    { pose proof (wf_get _ _ _ Hwf Epar) as Hw. inversion Hw; assumption. }
+    destruct (remove_at_subtree t (parent_of names) nm k _ m kids Epar Hs Ef) as [H1 H2].
+    unfold parent_of in H1, H2. rewrite <- (lastN_some _ _ _ El) in H1, H2.
+    split; assumption.
+  - apply lastN_none in El. congruence.
+Qed.
+
+(* ---- the root stays a storage ---- *)
+
+Lemma update_root_dir :
+  forall t names f,
+    is_leaf t = false -> (forall m k, is_leaf (f (Dir m k)) = false) ->
+    is_leaf (update t names f) = false.
+Proof.
+  intros t names f Ht Hf. destruct t as [st bs|m kids]; [discriminate|].
+  destruct names as [|x r]; simpl; [apply Hf|].
+  destruct (find_kid x kids) as [[k c]|]; reflexivity.
+Qed.
+
+Lemma create_storage_at_root_dir :
+  forall t names now, is_leaf t = false -> is_leaf (fst (create_storage_at t names now)) = false.
+Proof.
+  intros t names now Ht. unfold create_storage_at.
+  repeat (break_match; try exact Ht). simpl. apply update_root_dir; [exact Ht | reflexivity].
+Qed.
+
+Lemma create_all_root_dir :
+  forall pres t now, is_leaf t = false -> is_leaf (fst (create_all t pres now)) = false.
+Proof.
+  induction pres as [|pre rest IH]; intros t now Ht; simpl; [exact Ht|].
+  assert (Hstep : is_leaf (fst (match create_storage_at t pre now with
+                                | (t', Ok _) => create_all t' rest now
+                                | other => other end)) = false).
+  { pose proof (create_storage_at_root_dir t pre now Ht) as Hc.
+    destruct (create_storage_at t pre now) as [t' r]. simpl in Hc.
+    destruct r; try exact Hc. apply IH, Hc. }
+  destruct (get t pre) as [[st bs|m kids]|]; try exact Hstep. apply IH, Ht.
+Qed.
+
+Theorem root_dir_spec_step :
+  forall t now o, is_leaf t = false -> is_leaf (fst (spec_step t now o)) = false.
+Proof.
+  intros t now o Ht.
+  destruct o; unfold spec_step, with_names; cbv beta iota; try exact Ht;
+    (destruct (name_chain_from_path p) as [names| | |]; [|exact Ht..]).
+  - apply create_storage_at_root_dir, Ht.
+  - destruct (all_valid names); [apply create_all_root_dir, Ht | exact Ht].
+  - repeat (break_match; try exact Ht). simpl. unfold remove_at.
+    break_match; [|exact Ht]. apply update_root_dir; [exact Ht | reflexivity].
+  - destruct (get t names); [|exact Ht]. destruct names; simpl.
+    + destruct t; [discriminate | reflexivity].
+    + unfold remove_at. break_match; [|exact Ht]. apply update_root_dir; [exact Ht | reflexivity].
+  - destruct (get t names) as [[st bs|m kids]|] eqn:Eg; try exact Ht.
+    + destruct overwrite; [|exact Ht]. simpl. destruct names as [|x r].
+      * simpl in Eg. injection Eg as ->. discriminate.
+      * destruct t as [|m kids]; [discriminate|]. simpl.
+        destruct (find_kid x kids) as [[k c]|]; reflexivity.
+    + repeat (break_match; try exact Ht). simpl.
+      apply update_root_dir; [exact Ht | reflexivity].
+  - destruct (get t names) as [[st bs0|m kids]|] eqn:Eg; try exact Ht. simpl.
+    destruct names as [|x r].
+    + simpl in Eg. injection Eg as ->. discriminate.
+    + destruct t as [|m kids]; [discriminate|]. simpl.
+      destruct (find_kid x kids) as [[k c]|]; reflexivity.
+  - repeat (break_match; try exact Ht).
+  - repeat (break_match; try exact Ht). simpl. unfold remove_at.
+    break_match; [|exact Ht]. apply update_root_dir; [exact Ht | reflexivity].
+  - repeat (break_match; try exact Ht); simpl; apply update_root_dir; [exact Ht | reflexivity].
+  - repeat (break_match; try exact Ht); simpl; apply update_root_dir; [exact Ht | reflexivity].
+  - repeat (break_match; try exact Ht); simpl; apply update_root_dir; [exact Ht | reflexivity].
+  - repeat (break_match; try exact Ht); simpl; apply update_root_dir; [exact Ht | reflexivity].
+  - repeat (break_match; try exact Ht).
+  - repeat (break_match; try exact Ht).
+  - repeat (break_match; try exact Ht).
+  - repeat (break_match; try exact Ht).
+Qed.
+
+(* ---- why the statements above exclude prefixes, and need a storage root ---- *)
+
+(* "every chain not equivalent to names is untouched" is false: the parent changes *)
+Example create_then_found_naive_false :
+  exists t' names,
+    spec_step empty_tree 0 (SCreateStorage [47; 97]) = (t', Ok SVUnit) /\
+    name_chain_from_path [47; 97] = Ok names /\
+    ~ chain_equiv [] names /\ get t' [] <> get empty_tree [].
+Proof.
+  eexists. eexists. split; [vm_compute; reflexivity|]. split; [vm_compute; reflexivity|].
+  split; [intro H; inversion H | vm_compute; discriminate].
+Qed.
+
+(* on a tree whose root is a stream, remove_stream "/" answers Ok and removes nothing *)
+Example remove_stream_root_leaf :
+  spec_step (Leaf 0 []) 0 (SRemoveStream [47]) = (Leaf 0 [], Ok SVUnit) /\
+  name_chain_from_path [47] = Ok [] /\ get (Leaf 0 []) [] <> None.
+Proof. split; [vm_compute; reflexivity|]. split; [vm_compute; reflexivity | discriminate]. Qed.
+
+(* ------------------------------------------------------------------ *)
+Print Assumptions find_insert_same.
+Print Assumptions insert_sorted.
+Print Assumptions remove_sorted.
+Print Assumptions find_remove.
+Print Assumptions replace_sorted.
+Print Assumptions find_replace.
+Print Assumptions find_kid_equiv.
+Print Assumptions find_kid_case_insensitive.
+Print Assumptions find_kid_stored.
+Print Assumptions insert_perm.
+Print Assumptions remove_perm.
+Print Assumptions sorted_perm_unique.
+Print Assumptions siblings_coexist.
+Print Assumptions list_kids_sorted.
+Print Assumptions get_update_same.
+Print Assumptions get_update_other.
+Print Assumptions wf_spec_step.
+Print Assumptions spec_refused_no_effect.
+Print Assumptions spec_case_insensitive.
+Print Assumptions create_then_found.
+Print Assumptions create_stream_then_found.
+Print Assumptions remove_stream_then_gone.
+Print Assumptions remove_storage_then_gone.
+Print Assumptions remove_storage_all_then_gone.
+Print Assumptions root_dir_spec_step.
